@@ -170,6 +170,13 @@ func runAbort09(args []*Sexp) *Sexp {
 	}
 	ctl := &abortCtl{p1: p1, p2: p2, occ1: occ, seen: map[string]int{}, startCh: make(chan struct{}), midCh: make(chan struct{}),
 		contCh: make(chan struct{}), doneCh: make(chan struct{})}
+	if p1 == "delay" {
+		// free-running: Abort some microseconds after the script reached its first sync call
+		// (set before the runner starts: the hook reads these fields from the runner's goroutine)
+		ctl.p1, ctl.p2 = "script.a.root", ""
+		ctl.occ1 = 1
+		ctl.free = time.Duration(occ) * time.Microsecond
+	}
 	ugo.VerifSyncHook = ctl.hook
 	defer func() { ugo.VerifSyncHook = nil }()
 	var src string
@@ -255,12 +262,6 @@ func runAbort09(args []*Sexp) *Sexp {
 			ctl.mu.Unlock()
 			vm.Abort()
 		}()
-		if p1 == "delay" {
-			// free-running: Abort some microseconds after the script reached its first sync call
-			ctl.p1, ctl.p2 = "script.a.root", ""
-			ctl.occ1 = 1
-			ctl.free = time.Duration(occ) * time.Microsecond
-		}
 	}
 	outcome := "hang"
 	var ms int64
